@@ -239,12 +239,12 @@ def check_parse(spec, ctx, topo, names):
                     want_dist.append((d["a"], d["b"]))
         for node in meta.nodes:
             at = meta.nodes[node]
-            got = sorted(sig(p) for p in at.get("restraints", []))
-            if got != sorted(want_restr.get(node, [])):
+            got = sorted((sig(p) for p in at.get("restraints", [])), key=repr)
+            if got != sorted(want_restr.get(node, []), key=repr):
                 raise Violation("geometry_selection", f"molecule {mi} ({names[mi]}) residue {at['resname']}{at['resid']}: "
                                                       f"restraints {got} expected {sorted(want_restr.get(node, []))}")
-            got_rw = sorted(sig(p) for p in at.get("rw_options", []))
-            if got_rw != sorted(want_rw.get(node, [])):
+            got_rw = sorted((sig(p) for p in at.get("rw_options", [])), key=repr)
+            if got_rw != sorted(want_rw.get(node, []), key=repr):
                 raise Violation("rw_selection", f"molecule {mi} ({names[mi]}) residue {at['resname']}{at['resid']}: "
                                                 f"rw_options {got_rw} expected {sorted(want_rw.get(node, []))}")
         has_dist = any("distance_restraints" in meta.nodes[n] for n in meta.nodes)
